@@ -135,6 +135,10 @@ func (s *server) OnRead(p Poll) error {
 				if retryTimeIndex > 0 {
 					time.Sleep(retryTimes[retryTimeIndex] * time.Millisecond)
 				}
+				if atomic.LoadInt32(&s.closing) != 0 {
+					// Close has closed the listener: its descriptor number is not ours any more
+					return
+				}
 				conn, err := s.ln.Accept()
 				if err == nil {
 					if conn == nil {
